@@ -1,7 +1,10 @@
 package main
 
 import (
+	"bytes"
 	"encoding/json"
+	"log"
+	"log/slog"
 	"mime"
 	"net/http"
 
@@ -175,8 +178,39 @@ func (rn *runner) runGroupCase(c *Case) {
 	}
 	rn.gobserve(gi)
 	for i := range c.Reqs {
+		if c.Reqs[i].Op == "rechelper" {
+			rn.recHelper(&c.Reqs[i])
+			continue
+		}
 		rn.gserve(gi, &c.Reqs[i])
 	}
+}
+
+// recHelper: the bundled recovery options (status only / io.Writer / log / slog) on a stand-alone router
+func (rn *runner) recHelper(op *Op) {
+	e := &env{}
+	var buf bytes.Buffer
+	var opt mux.Option
+	switch op.Key {
+	case "status":
+		opt = mux.WithStatusRecovery(op.N)
+	case "write":
+		opt = mux.WithWriteRecovery(op.N, &buf)
+	case "log":
+		opt = mux.WithLogRecovery(op.N, log.New(&buf, "", 0))
+	case "slog":
+		opt = mux.WithSLogRecovery(op.N, slog.New(slog.NewTextHandler(&buf, nil)))
+	}
+	r := mux.NewRouter[*H]("rh", e.call, &H{kind: "404"}, b405, bopt, opt)
+	r.Get("/x", &H{kind: "route", id: "rh:/x"}, e.mw("m"))
+	e.faults = map[string]string(op.Faults)
+	o := e.serve(r, mkRequest(op.Method, op.Path, "", nil))
+	e.faults = nil
+	o2 := e.serve(r, mkRequest("GET", "/x", "", nil)) // a later request is served normally
+	rn.stats.exec += 2
+	rn.emit(obj("ev", js("rechelper"), "kind", js(op.Key), "code", jint(op.N), "method", js(op.Method), "path", js(op.Path), "faults", jmap(op.Faults),
+		"status", jint(o.w.status), "stext", js(http.StatusText(op.N)), "escaped", js(o.panicKind), "outlen", jint(buf.Len()),
+		"later", obj("kind", js(o2.kind), "status", jint(o2.w.status), "escaped", js(o2.panicKind))))
 }
 
 func (rn *runner) gobserve(gi *ginst) {
